@@ -417,6 +417,108 @@ func runLeakCase(c *Ctx, tc tblCase, seed int64) (vs []rsV, evals int) {
 	}
 	if h, m := w.OpenHandles(), w.OpenMappings(); len(h)+len(m) > 0 {
 		add("leak|recordio-reader-after-close", fmt.Sprintf("RecordIO readers were closed but still open: %v %v", h, m))
+		return
+	}
+	// failed opens: a constructor that returns an error hands out nothing that could be closed, so whatever it opened
+	// on the way must be released by itself; a reader whose Open failed is closed by the caller (Close may complain).
+	// Damaged copies of the table (cut, overwritten or missing files) make the loaders fail at different steps.
+	files := []string{sstables.IndexFileName, sstables.DataFileName, sstables.MetaFileName, sstables.BloomFileName}
+	for round := 0; round < 6; round++ {
+		evals++
+		dmg := filepath.Join(dir, fmt.Sprintf("dmg%d", round))
+		if err := os.MkdirAll(dmg, 0o700); err != nil {
+			panic(err)
+		}
+		for _, f := range files {
+			b, err := os.ReadFile(filepath.Join(dir, f))
+			if err != nil {
+				continue
+			}
+			if err := os.WriteFile(filepath.Join(dmg, f), b, 0o600); err != nil {
+				panic(err)
+			}
+		}
+		victim := files[r.Intn(len(files))]
+		vp := filepath.Join(dmg, victim)
+		b, err := os.ReadFile(vp)
+		if err != nil {
+			continue
+		}
+		what := ""
+		switch k := r.Intn(6); {
+		case k == 0:
+			_ = os.Remove(vp)
+			what = "removed"
+		case k == 1:
+			b = b[:0]
+			what = "cut to 0 bytes"
+		case k == 2 && len(b) > 1:
+			n := 1 + r.Intn(len(b)-1)
+			b = b[:n]
+			what = fmt.Sprintf("cut to %d of %d bytes", n, len(b))
+		case k == 3 && len(b) > 0:
+			b[r.Intn(min(len(b), 8))] ^= 0xff
+			what = "file header byte inverted"
+		default:
+			if len(b) > 0 {
+				at := r.Intn(len(b))
+				for i := at; i < len(b) && i < at+1+r.Intn(64); i++ {
+					b[i] = 0xff
+				}
+				what = fmt.Sprintf("bytes from %d overwritten with 0xff", at)
+			}
+		}
+		if what != "removed" {
+			if err := os.WriteFile(vp, b, 0o600); err != nil {
+				panic(err)
+			}
+		}
+		var opts []sstables.ReadOption
+		opts = append(opts, sstables.ReadBasePath(dmg), sstables.ReadWithKeyComparator(skiplist.BytesComparator{}), tblLoader(tc))
+		if r.Intn(3) == 0 {
+			opts = append(opts, sstables.SkipHashCheckOnLoad())
+		}
+		var drd sstables.SSTableReaderI
+		var oerr error
+		func() {
+			defer func() {
+				if p := recover(); p != nil {
+					oerr = fmt.Errorf("panic: %v", p)
+					c.Count("probe:panic-on-damaged-table-open", 1)
+				}
+			}()
+			drd, oerr = sstables.NewSSTableReader(opts...)
+		}()
+		if oerr == nil && drd != nil {
+			c.Count("probe:damaged-table-opened", 1)
+			_ = drd.Close()
+		} else {
+			c.Count("probe:damaged-table-open-failed", 1)
+		}
+		if h, m := w.OpenHandles(), w.OpenMappings(); len(h)+len(m) > 0 {
+			state := "failed"
+			if oerr == nil {
+				state = "succeeded and was closed"
+			}
+			add("leak|table-open-on-damaged-files|"+victim+"|"+loaderNames[tc.Loader], fmt.Sprintf("%s %s; opening the table (%s loader) %s (%v) and left open: handles %v mappings %v", victim, what, loaderNames[tc.Loader], state, oerr, h, m))
+			return
+		}
+		if victim == sstables.DataFileName || victim == sstables.IndexFileName {
+			// the RecordIO readers on the same damaged file: Open may fail, Close must release the descriptor / mapping
+			if fr, e := recordio.NewFileReaderWithPath(vp); e == nil {
+				_ = fr.Open()
+				_, _ = fr.ReadNext()
+				_ = fr.Close()
+			}
+			if mr, e := recordio.NewMemoryMappedReaderWithPath(vp); e == nil {
+				_ = mr.Open()
+				_ = mr.Close()
+			}
+			if h, m := w.OpenHandles(), w.OpenMappings(); len(h)+len(m) > 0 {
+				add("leak|recordio-open-on-damaged-file", fmt.Sprintf("%s %s; RecordIO readers were opened (possibly failing) and closed but left open: handles %v mappings %v", victim, what, h, m))
+				return
+			}
+		}
 	}
 	return
 }
